@@ -51,7 +51,7 @@ TOL = 1e-9
 #                       edge-sized direction vectors, so meshes with edge lengths <~ 1e-6 are reported 'parallel' -> AttributeError)
 #   reused_output     : interpolate_faces_to_vertices / average_corners_to_* called a second time into the same output attribute
 #                       accumulate instead of overwriting (area / angle / some uniform / sum modes), unlike interpolate_vertices_to_faces
-PENDING = {"circumcenter_tiny": False, "reused_output": False}
+PENDING = {"circumcenter_tiny": True, "reused_output": True}
 for _k in os.environ.get("C07_PENDING", "").split(","):
     if _k.strip() in PENDING:
         PENDING[_k.strip()] = True
@@ -1101,11 +1101,11 @@ def self_test():
 
 
 SUBCHECKS = [
-    SubCheck("tri_surface", tri_case(), fn_surface, quick=720, thorough=600),
-    SubCheck("poly_surface", poly_case(), fn_surface, quick=600, thorough=500),
-    SubCheck("tet_volume", tet_case(), fn_tets, quick=360, thorough=300),
-    SubCheck("interpolation", interp_case(), fn_interp, quick=360, thorough=250),
-    SubCheck("nonconvex_face", nonconvex_case(), fn_nonconvex, quick=240, thorough=200),
+    SubCheck("tri_surface", tri_case(), fn_surface, quick=600, thorough=600),
+    SubCheck("poly_surface", poly_case(), fn_surface, quick=500, thorough=500),
+    SubCheck("tet_volume", tet_case(), fn_tets, quick=300, thorough=300),
+    SubCheck("interpolation", interp_case(), fn_interp, quick=300, thorough=250),
+    SubCheck("nonconvex_face", nonconvex_case(), fn_nonconvex, quick=200, thorough=200),
 ]
 
 def kf_nonconvex_faces(case, violation):
